@@ -14,7 +14,8 @@ def check(ctx):
         "SpanLine only across span_lines.last_mut() = Some; R2 also: the handle that closes a scope is moved out of its guard "
         "only in the guard's Drop / consuming collect (a panicking property closure unwinds through a full guard); R5 local "
         "properties and events are recorded as new queue entries under next_parent_id (never appended to an earlier entry); R6 a scope refused at the per-thread scope limit must leave a trace in the "
-        "stack (known finding K4: it does not, so operations under the refused local parent act on the enclosing scope).")
+        "stack (known finding K4: it does not, so operations under the refused local parent act on the enclosing scope); R7 the scope "
+        "limit is the only reason to refuse a scope: every other path of register_span_line pushes the new span line.")
     ctx.not_decided = ("the frame condition for arbitrary nesting depth (it follows from the stack discipline R2 pins down, "
                        "but equality of 'context before' and 'context after' is a state property).")
     facts = ctx.facts("E")
@@ -33,3 +34,4 @@ def check(ctx):
     provrules.rule_attachments_are_new_entries(ctx, facts, "R5")
     provrules.rule_pseudo_spans(ctx, facts, "R5")
     scopes.rule_refused_scope_masks(ctx, facts, "R6")
+    scopes.rule_refuses_only_when_full(ctx, facts, "R7")
